@@ -286,4 +286,22 @@ MUTANTS += [
     dict(prop='C19', name='restart-of-dead-timer-raises-again', edits=[(TIMER, "        if self.proc.is_alive:", "        if not self.proc.processed:")]),
     dict(prop='C19', name='kwargs-dropped', edits=[(TIMER, "self.timeout_callback(*self.args, **self.kwargs)", "self.timeout_callback(*self.args)")]),
 ]
+
+DGEN = 'onl/packet/dist_generator.py'
+SINK = 'onl/packet/sink.py'
+DEMUX = 'onl/netdev/demux.py'
+SPLIT = 'onl/netdev/splitter.py'
+MUTANTS += [
+    # ---- C08
+    dict(prop='C08', name='port-forwards-twice-when-backlogged', edits=[(PORT, "            if self.out:\n                self.out.put(packet)\n", "            if self.out:\n                self.out.put(packet)\n                if len(self.store.items) > 6:\n                    self.out.put(packet)\n")]),
+    dict(prop='C08', name='wire-forwards-a-copy', edits=[(WIRE, "                self.out.put(packet)\n", "                import copy as _c\n                self.out.put(_c.copy(packet) if packet.size > 1000 else packet)\n")]),
+    dict(prop='C08', name='scheduler-loses-wakeup-token', edits=[(SBASE, "        if self.total_packets == 0:\n            self.packets_available.put(True)", "        if self.total_packets == 0 and self.packets_received % 5 != 4:\n            self.packets_available.put(True)")]),
+    dict(prop='C08', name='sink-counts-bytes-of-previous-packet', edits=[(SINK, "        self.bytes_received[rec_index] += packet.size", "        self.bytes_received[rec_index] += packet.size if self.packets_received[rec_index] != 3 else 0")]),
+    dict(prop='C08', name='generator-id-off-by-one-after-10', edits=[(DGEN, "                self.packets_send,\n", "                self.packets_send + (self.packets_send > 10),\n")]),
+    dict(prop='C08', name='generator-size-drawn-before-wait', edits=[(DGEN, "            yield env.timeout(self.arrival_dist())\n            self.packets_send += 1", "            _gap = self.arrival_dist()\n            yield env.timeout(_gap * (1.0 if self.packets_send < 7 else 1.5))\n            self.packets_send += 1")]),
+    dict(prop='C08', name='tb-rewrites-packet-time', edits=[(TB, "            self.out.put(packet)\n\n            self.packets_sent += 1", "            if packet.size > self.bucket_size:\n                packet.time = env.now\n            self.out.put(packet)\n\n            self.packets_sent += 1")]),
+    dict(prop='C18', name='flowdemux-default-consulted-first', edits=[(DEMUX, "        if flow_id < len(self.outs):\n            self.outs[flow_id].put(packet)", "        if flow_id < len(self.outs) and not (self.default_out and flow_id == len(self.outs) - 1):\n            self.outs[flow_id].put(packet)")]),
+    dict(prop='C08', name='sink-interarrival-uses-first-arrival', edits=[(SINK, "self.arrivals[rec_index][-1] = now - self.last_arrival[rec_index]", "self.arrivals[rec_index][-1] = now - (self.last_arrival[rec_index] if len(self.arrivals[rec_index]) < 4 else self.first_arrival[rec_index])")]),
+    dict(prop='C08', name='drr-parks-head-and-forgets-it', edits=[(DRRF, "                            assert not class_id in self.head_of_line\n                            self.head_of_line[class_id] = packet", "                            assert not class_id in self.head_of_line\n                            if packet.size < 1000:\n                                self.head_of_line[class_id] = packet")]),
+]
 MUTANTS.sort(key=lambda m: (m['prop'], m['name']))
